@@ -2,6 +2,7 @@ import json, os, time
 import vlib
 
 ASSUME = [
+    'robust.MessageOffset is the default of the binary (4648398125000000000), so that a raft index and the message id derived from it differ',
     'every sequence is executed twice: once with all accessors compared after every operation, once with the accessors called only after the last operation (an accessor that leaves state behind -- a cached index -- must not be kept consistent by the observer)',
     'the bulk iterator (a RobustIRC-specific accessor, not part of raft.LogStore) is compared on the log entries it yields; stable-store keys that a range spanning 0x7374... yields on a store that also holds stable keys are skipped: the repository only bulk-iterates the IRC log copy, which holds none',
     'alphabet: 12 stores (StoreLog / StoreLogs batch of 2 / StoreLogProto; indexes 1,2,3,7,2^40,2^63; LogCommand/LogNoop/LogConfiguration; payload protobuf message, JSON message, empty, opaque bytes with and without a leading p; term/extensions/append time zero and set), 8 DeleteRange ranges (single, prefix, only-missing, middle, min>max, single large, suffix, all), 6 stable writes (Set/SetUint64 on CurrentTerm, LastVoteCand and 8-byte keys equal to the big-endian indexes 7 and 2^63), Close+reopen as JSON and as protobuf; every sequence is run from an empty database opened as JSON and as protobuf',
